@@ -561,3 +561,32 @@ PROPS["C04"].streams.append(Stream(
          "type / width, decref at count 0, push / map add / tag set / tag item / add chunk / set_handle on the wrong kind of item, each typed serializer on another "
          "type): the assert-enabled build must abort on the corresponding assertion exactly where the model reports Fault (both sides canonicalised to "
          "'ASSERT <condition class>')"))
+# ---- thorough-tier depth for the heap properties: soak histories (model: all three layers of model H) ----
+SOAK_RULE = ("thorough tier only: long random rule-following histories over all three layers (300-1500 calls, ended earlier when the estimated cost of the "
+             "extracted model -- (blocks allocated) x (heap writes) per cbor_decref call, function-heap closures -- reaches its budget: in practice 900-1200 calls), "
+             "30-80 live handles, in ONE history: cbor_load of random well-formed items, cbor_copy of the largest trees in reach, tag chains 5-33 deep, one container "
+             "pushed / added / chunk-added through 20-260 insertions (every growth step up to 256), client buffers via set_handle and shortening in place, the cbor_move "
+             "idioms in runs, one item inserted into up to ten containers, whole-tree readers; compared per step (return values; refcounts and sizes / capacities of a "
+             "rotating sample of handles, all of them every 64 calls), final live-block count and the complete allocator trace")
+def soak(flavours=("rel",), env=None, name="soak", n=96):
+    return Stream(name, "hist", histgen.soak_cases_sized(n), args=(LDEF, CAP, "none", 0), flavours=flavours, env=env, timeout=900, per_job=1,
+                  tiers=("thorough",), nontrivial=lambda c, l: True, rule=SOAK_RULE)
+soak_fault = lambda flavours=("rel",), env=None, name="soak-fault": Stream(
+    name, "fault", histgen.soak_fault_cases, args=(LDEF, CAP), flavours=flavours, env=env, timeout=1200, per_job=4, tiers=("thorough",),
+    nontrivial=lambda c, l: " only" in l,
+    rule="thorough tier only: soak-style histories of 20-60 calls (loads, copies, tag chains, growth, client buffers, move idioms) under EVERY refusal schedule "
+         "'request k alone' / 'every request from k on', k = 0..N-1 (N = requests of the fault-free run: beginning, middle and end of the history): failure values, "
+         "refcounts, sizes, live blocks and the whole trace per schedule; histories that become illegal under some schedule are not handed to the implementation")
+thr_soak = lambda: Stream("thr-soak", "thr", histgen.thr_soak_cases, args=(LDEF, CAP), flavours=("tsan", "rel"), timeout=1500, per_job=1, tiers=("thorough",),
+                          nontrivial=lambda c, l: True,
+                          rule="thorough tier only: 6 runs of 16 threads, each thread a private soak history of 200-400 calls over all three layers (decoding, float "
+                               "conversion, copies, growth, client buffers, move idioms), released together by a barrier; ThreadSanitizer build and release build; every "
+                               "thread's per-step observations and allocator trace must equal the single-threaded model's")
+PROPS["C04"].streams += [soak(("rel", "dbg")), soak_fault(("rel",))]
+PROPS["C06"].streams += [soak_fault(("rel", "dbg"))]
+PROPS["C12"].streams += [soak(("rel",), n=64)]
+PROPS["C11"].streams += [soak(("rel", "dbg"), n=64)]
+PROPS["C13"].streams += [soak(("rel",), {"HX_ALLOC": "tag"}, "soak-tag"), soak(("rel",), {"HX_ALLOC": "arena"}, "soak-arena", n=64),
+                         soak_fault(("rel",), {"HX_ALLOC": "tag"}, "soak-fault-tag")]
+PROPS["C17"].streams += [thr_soak()]
+
